@@ -107,6 +107,9 @@ func c20GenTx(r *simrt.Rand, i int) node.TxSpec {
 		s.K = "refund"
 		s.Miner = pick()
 		s.Amount = []string{"1", "100", "400", "401", "2000", "18446744073709551615", "999999", "0"}[r.Intn(8)]
+		if r.Chance(0.12) {
+			s.Omit = []string{"Amount", "MinerId"}[r.Intn(2)]
+		}
 	case x < 81:
 		s.K = "node"
 	case x < 88:
@@ -357,6 +360,9 @@ func (c20) Exec(raw json.RawMessage, st *simrt.Stats, log *simrt.Log) *simrt.Vio
 					return viol(bi, "stake-added-to-unknown-miner", "addstake", "add-stake of %d for unregistered miner %s accepted", s.Stake, id[:10])
 				}
 			case "refund":
+				if s.Omit != "" {
+					return viol(bi, "malformed-transaction-accepted", "refund", "refund whose payload has no %s field accepted: %s", s.Omit, rc.Msg)
+				}
 				m := led[id]
 				if m == nil {
 					return viol(bi, "refund-for-unknown-miner", "refund", "refund for unregistered miner %s accepted", id[:10])
